@@ -1,11 +1,11 @@
-\* two channels, logs <= 3, page sizes 1 and 2, probes: measured below
+\* two channels, logs <= 3, page sizes 1 and 2, crash after any page, retry with and without cleanup (no probes: those are in the one-channel configurations): 1,706,904 distinct / 9,275,058 generated states, ~9 min with 4 workers on a loaded machine
 SPECIFICATION Spec
 CONSTANTS
   ChanSeq <- MCChanSeq2
   MaxLen = 3
   Cfgs <- MCCfgsMsg
   BadVariants = {"dropLast"}
-  MaxAppends = 1
+  MaxAppends = 0
   MaxAttempts = 2
 VIEW View
 INVARIANTS TypeOK C11_NothingAboveHW C11_NoOrphanRows C11_WarmFresh C11_OtherSlotKept
